@@ -203,7 +203,10 @@ def run(tier, seed):
 
     def work(j):
         sp = os.path.join(tmp, "st_%d_%d_%s.json" % (j["s"], j["rep"], "_".join(j["mode"])))
-        rc, so, se, dt = core.run_cli([j["path"]] + j["mode"] + ["-S", sp, "-D", "json", "-E", "7"], timeout=120)
+        # every repetition but the first runs under its own schedule perturbation (hook H2: random sleeps where a validator takes a
+        # packet and where the dispatcher hands one over), so that the validators really report in different orders
+        env = {"FASTPASTA_VERIF_SCHED": "%d:v.recv=%d,d.send=%d" % (1000 + 37 * j["rep"] + j["s"], [300, 2000, 50][j["rep"] % 3], [0, 40, 400][j["rep"] % 3])} if j["rep"] else None
+        rc, so, se, dt = core.run_cli([j["path"]] + j["mode"] + ["-S", sp, "-D", "json", "-E", "7"], timeout=180, env_extra=env)
         st = open(sp, "rb").read() if os.path.exists(sp) else b""
         if os.path.exists(sp):
             os.remove(sp)
@@ -242,6 +245,6 @@ def run(tier, seed):
     chk.cov["rule"] = ("collector-interleavings: random families of per-sender streams satisfying streams_ok (reader/main, analysis, 2-5 validators "
                        "with repeated offsets), each under sequential / reverse / random bursty interleavings, muted and not, through the real "
                        "StatsCollector; the serialised statistics must be byte-identical across interleavings and equal to the model's. "
-                       "cli-repeated-runs: multi-link corrupted inputs (incl. [E10]+[E11] pairs at one offset) run 10 (24) times concurrently "
+                       "cli-repeated-runs: multi-link corrupted inputs (incl. [E10]+[E11] pairs at one offset) run 10 (24) times concurrently, each repetition under its own schedule perturbation (hook H2), "
                        "per mode incl. -m; statistics file bytes, stderr lines, report and exit status compared. distinct = class tuples")
     return core.finish(chk, TRUSTED)
